@@ -47,6 +47,44 @@ def number_loops(fnode) -> dict:
     return {id(n): i + 1 for i, n in enumerate(loops)}
 
 
+def generator_as_ghost_list(fnode):
+    """A generator function is verified as the function that builds the sequence it yields: mechanically, on a copy of
+    the real AST, every statement `yield e` becomes `_yielded.append(e)` and `_yielded: list[Any] = []` is put
+    in front; contracts see the final sequence as `yielded`.  Not covered by this reading: values sent into the
+    generator (`x = yield e` stays unsupported), `yield from`, and what the consumer does between two items."""
+    import copy
+    if not any(isinstance(n, (ast.Yield, ast.YieldFrom)) for n in ast.walk(fnode)):
+        return fnode, False
+    node = copy.deepcopy(fnode)
+
+    class R(ast.NodeTransformer):
+        def visit_FunctionDef(self, n):
+            return n
+
+        visit_AsyncFunctionDef = visit_FunctionDef
+        visit_Lambda = visit_FunctionDef
+
+        def visit_Expr(self, st):
+            if isinstance(st.value, ast.Yield):
+                val = st.value.value if st.value.value is not None else ast.Constant(value=None)
+                new = ast.Expr(value=ast.Call(func=ast.Attribute(value=ast.Name(id="_yielded", ctx=ast.Load()),
+                                                                 attr="append", ctx=ast.Load()), args=[val], keywords=[]))
+                return ast.fix_missing_locations(ast.copy_location(new, st))
+            return st
+
+    r = R()
+    node.body = [r.visit(s) if not isinstance(s, (ast.FunctionDef, ast.AsyncFunctionDef)) else s for s in node.body]
+    init = ast.AnnAssign(target=ast.Name(id="_yielded", ctx=ast.Store()),
+                         annotation=ast.Subscript(value=ast.Name(id="list", ctx=ast.Load()),
+                                                  slice=ast.Name(id="Any", ctx=ast.Load()), ctx=ast.Load()),
+                         value=ast.List(elts=[], ctx=ast.Load()), simple=1)
+    first = node.body[0]
+    ast.copy_location(init, first)
+    ast.fix_missing_locations(init)
+    node.body.insert(0, init)
+    return node, True
+
+
 def make_world(specs: SpecSet, repo_root: str | None = None) -> World:
     repo = Repo(repo_root)
     w = World(repo)
@@ -71,7 +109,8 @@ def verify_function(w: World, specs: SpecSet, fq: str, timeout_ms: int = 10000, 
     eng = FullEngine(w, specs)
     eng.func_fq = fq
     eng.cur_contract = c
-    loop_ids = number_loops(fi.node)
+    vnode, is_gen = generator_as_ghost_list(fi.node)
+    loop_ids = number_loops(vnode)
     for k in c.loop_inv:
         if k > len(loop_ids):
             rep.error = f"contract names loop #{k} but {fq} has {len(loop_ids)} loops (code changed shape)"
@@ -116,7 +155,7 @@ def verify_function(w: World, specs: SpecSet, fq: str, timeout_ms: int = 10000, 
                 rep.requires_sat = satisfiable(eng.st.pc, w.global_axioms(), 5000)
             outcome = None
             try:
-                eng.exec_block(fi.node.body)
+                eng.exec_block(vnode.body)
                 outcome = ("return", SV(None, T.NONE))
             except ReturnSignal as r:
                 outcome = ("return", r.value)
@@ -187,6 +226,8 @@ def _post(eng, c, fi, outcome, ptypes, param_refs, pre_vals):
         else:
             post_vals[p] = pre_vals[p]
     old = Namespace(pre_vals)
+    if "_yielded" in eng.st.env:
+        post_vals["yielded"] = eng.snapshot(eng.lookup("_yielded"))  # the sequence a generator function has yielded
     if kind == "raise":
         r = val
         cls = r.cls
